@@ -5,6 +5,8 @@ import RsslVerif.Lemmas.FixpointText
 import RsslVerif.Lemmas.FixpointSlots
 import RsslVerif.Lemmas.FixpointLeaf
 import RsslVerif.Thm.C09
+import RsslVerif.Lemmas.FixpointNamesWF
+import RsslVerif.Gen.PathLookup
 /-!
 # C04 — emitted DirectX HLSL is accepted by the front end and is a fixpoint
 
@@ -547,5 +549,270 @@ example :
     (by simp [WF]; decide)
 
 end Fixpoint
+
+/-! ## name lookup of the emitted paths (`Model.FixpointNames`) -/
+section Names
+open RsslVerif.Model.FixpointNames RsslVerif.Lemmas.FixpointNames
+open RsslVerif.Gen.RankTable RsslVerif.Gen.TypingTables
+open RsslVerif.Model RsslVerif.Model.Conv RsslVerif.Model.Overload RsslVerif.Model.IrTyping RsslVerif.Model.Elab
+open RsslVerif.Model.Fixpoint RsslVerif.Model.FixpointBridge RsslVerif.Model.GenHlsl
+
+/-- **path_lookup_as_modelled.**  The lookup discipline `Model.FixpointNames.find` / `walkInto` / `findInScope` / `emitPath`
+    mirror is the one of the current source: the bodies of `Context::find_identifier`, `Context::walk_into_scopes` and
+    `scoped_name_to_identifier`, re-extracted on every run (`Gen.PathLookup`), are the transcribed ones; a relative
+    identifier starts in the current scope and an absolute one in scope 0; the exporter builds relative identifiers;
+    `find_identifier_in_scope` tries locals, then the symbol loop (functions are gathered, every value symbol returns,
+    types / namespaces / enum scopes are skipped), then the overloads, then struct members, then types.  A change of the
+    outward walk (seeded mutant C04-3: stop at the innermost scope that declares the first qualifier) breaks this
+    obligation. -/
+theorem path_lookup_as_modelled :
+    RsslVerif.Gen.PathLookup.findIdentifierSource = findIdentifierSource ∧
+    RsslVerif.Gen.PathLookup.walkIntoScopesSource = walkIntoScopesSource ∧
+    RsslVerif.Gen.PathLookup.scopedNameToIdentifierSource = scopedNameToIdentifierSource ∧
+    RsslVerif.Gen.PathLookup.startScope = [("Relative", "self.current_scope"), ("Absolute", "0")] ∧
+    RsslVerif.Gen.PathLookup.emittedBase = "Relative" ∧
+    RsslVerif.Gen.PathLookup.findInScopeStages = findInScopeStages ∧
+    RsslVerif.Gen.PathLookup.findInScopeArms = findInScopeArms :=
+  ⟨rfl, rfl, rfl, rfl, rfl, rfl, rfl⟩
+
+/-- the exporter's identifier for a qualified name is relative, its qualifiers and leaf are the segments in order -/
+theorem emitPath_relative {full : List String} {p : Path} (h : emitPath full = some p) :
+    p.abs = false ∧ p.quals ++ [p.leaf] = full := by
+  unfold emitPath at h
+  split at h
+  · cases h
+  · rename_i leaf rq hrev
+    cases h
+    refine ⟨rfl, ?_⟩
+    have : full = (leaf :: rq).reverse := by rw [← hrev, List.reverse_reverse]
+    simp [this]
+
+/-- one use of the exported program: the scope it stands in, the full printed path (from the root) of the entity the
+    first generation resolved it to, and that entity -/
+structure EmittedUse where
+  scope : Nat
+  full : List String
+  ent : Model.FixpointNames.Res
+
+/-- **PathsResolveBack** — what the re-resolution of the emitted paths must satisfy for the second generation to be
+    the first (the name-hygiene hypothesis of `fixpoint_expr`, spelled out for qualified names): in the scope table `T'`
+    the front end has built from the exported program when it reaches the use, `find_identifier` — started in the scope of
+    the use, with the *relative* identifier `scoped_name_to_identifier` builds from the full path of the entity — returns
+    that entity. -/
+def PathsResolveBack (T' : Table) (uses : List EmittedUse) : Prop :=
+  ∀ u ∈ uses, ∃ p, emitPath u.full = some p ∧ find T' u.scope p = .ok (some u.ent)
+
+/-- the full path denotes the entity when it is followed from the root of the exported program (`get_name_qualified`
+    lists the namespaces from the root; names are unique per scope in the output: C15 `injective_per_scope`) -/
+def DenotesFromRoot (T' : Table) (u : EmittedUse) : Prop :=
+  ∃ p, emitPath u.full = some p ∧ resolveAt T' 0 p.quals p.leaf = .ok (some u.ent)
+
+/-- no scope between the use and the root resolves the whole emitted path -/
+def NoCloserMatch (T' : Table) (u : EmittedUse) : Prop :=
+  ∃ p, emitPath u.full = some p ∧ ∀ v, OnChain T' u.scope v → v ≠ 0 → resolveAt T' v p.quals p.leaf = .ok none
+
+/-- no scope between the use and the root declares anything under the first name of the emitted path ("no homonymous
+    inner scope") -/
+def NoInnerHomonym (T' : Table) (u : EmittedUse) : Prop :=
+  ∃ p, emitPath u.full = some p ∧
+    ∀ v sc, OnChain T' u.scope v → v ≠ 0 → T'[v]? = some sc → Undeclared sc (headName p.quals p.leaf)
+
+theorem noCloserMatch_of_noInnerHomonym {T' : Table} (wf : TableWF T') {u : EmittedUse} (hu : u.scope < T'.length)
+    (h : NoInnerHomonym T' u) : NoCloserMatch T' u := by
+  obtain ⟨p, hp, hno⟩ := h
+  exact ⟨p, hp, clear_of_undeclared wf hu hno⟩
+
+/-- **emitted_path_resolves_of_no_closer_match** (the code's discipline, full strength): in a well-formed scope table, an
+    emitted path that denotes its entity from the root and that no scope between the use and the root resolves is looked
+    up, from the scope of the use, to that entity — for every table, every nesting depth, every path length. -/
+theorem emitted_path_resolves_of_no_closer_match {T' : Table} (wf : TableWF T') (u : EmittedUse) (hu : u.scope < T'.length)
+    (hd : DenotesFromRoot T' u) (hc : NoCloserMatch T' u) :
+    ∃ p, emitPath u.full = some p ∧ find T' u.scope p = .ok (some u.ent) := by
+  obtain ⟨p, hp, hroot⟩ := hd
+  obtain ⟨p', hp', hclear⟩ := hc
+  rw [hp] at hp'; cases hp'
+  refine ⟨p, hp, ?_⟩
+  have hrel := (emitPath_relative hp).1
+  have : p = ⟨false, p.quals, p.leaf⟩ := by cases p; simp_all
+  rw [this]
+  exact find_of_root_only wf hu hroot hclear
+
+/-- **emitted_path_resolves_to_same_entity**: for scope trees without a homonymous inner scope — nothing between the use
+    and the root declares the first name of the emitted path — the emitted path is looked up to the entity it was printed
+    for, **under both disciplines**: the code's (retry the whole path from every enclosing scope) and the one of seeded
+    mutant C04-3 (stop where the first qualifier resolves).  The two differ only on tables with such a homonym
+    (`mutant_discipline_loses_emitted_path`). -/
+theorem emitted_path_resolves_to_same_entity {T' : Table} (wf : TableWF T') (u : EmittedUse) (hu : u.scope < T'.length)
+    (hd : DenotesFromRoot T' u) (hn : NoInnerHomonym T' u) :
+    ∃ p, emitPath u.full = some p ∧ find T' u.scope p = .ok (some u.ent) ∧ findStop T' u.scope p = .ok (some u.ent) := by
+  obtain ⟨p, hp, hf⟩ := emitted_path_resolves_of_no_closer_match wf u hu hd (noCloserMatch_of_noInnerHomonym wf hu hn)
+  obtain ⟨p1, hp1, hroot⟩ := hd
+  obtain ⟨p2, hp2, hno⟩ := hn
+  rw [hp] at hp1 hp2; cases hp1; cases hp2
+  refine ⟨p, hp, hf, ?_⟩
+  have hrel := (emitPath_relative hp).1
+  have : p = ⟨false, p.quals, p.leaf⟩ := by cases p; simp_all
+  rw [this]
+  exact findStop_of_undeclared wf hu hroot hno
+
+/-- `PathsResolveBack` holds for every exported program whose uses have no closer match — in particular
+    (`noCloserMatch_of_noInnerHomonym`) when no inner scope reuses the first name of an emitted path -/
+theorem pathsResolveBack_of_no_closer_match {T' : Table} (wf : TableWF T') (uses : List EmittedUse)
+    (h : ∀ u ∈ uses, u.scope < T'.length ∧ DenotesFromRoot T' u ∧ NoCloserMatch T' u) : PathsResolveBack T' uses :=
+  fun u hu => emitted_path_resolves_of_no_closer_match wf u (h u hu).1 (h u hu).2.1 (h u hu).2.2
+
+/-- the tables of the descriptor machine are well formed: `TableWF` is not an assumption for the programs of the
+    `C04.names` stream -/
+theorem machine_tables_wf (is : List Instr) : TableWF (run is).T ∧ (run is).cur < (run is).T.length :=
+  ⟨(run_inv is).wf, (run_inv is).cur⟩
+
+/-! ### witnesses -/
+
+/-- `namespace Util { int twice(int); } namespace App { namespace Util { int halve(int); } int f(int) { ::Util::twice(K); } }` -/
+def homonymInstrs : List Instr :=
+  [.ns "Util", .fn "twice" "-", .end, .end,
+   .ns "App", .ns "Util", .fn "halve" "-", .end, .end, .fn "f" "-", .use .f ⟨true, ["Util"], "twice"⟩, .end, .end]
+
+def homonymTable : Table := (run homonymInstrs).T
+
+/-- the use `::Util::twice` of `App::f`: scope 6 (the body of `f`), entity 0 (`Util::twice`), emitted `Util::twice` -/
+def homonymUse : EmittedUse := ⟨6, ["Util", "twice"], .fns [0]⟩
+
+/-- the machine puts the use there and resolves the source path to that entity -/
+example : (run homonymInstrs).uses.map (fun u => (u.scope, u.res)) = [(6, .ok (some (.fns [0])))] := by decide
+
+/-- **mutant_discipline_loses_emitted_path** (negation witness for the discipline of seeded mutant C04-3): with a nested
+    namespace `App::Util` next to `::Util`, the emitted path `Util::twice` denotes `twice` from the root and no enclosing
+    scope resolves the whole path (so the code's discipline finds it: `PathsResolveBack` holds), but `App` declares the
+    first qualifier — the stop-at-the-first-qualifier discipline gives up in `App` and reports an unknown identifier.
+    The same program is the first entry of `SEARCH_NAMES` / corpus and is rejected by the real compiler with the mutant. -/
+theorem mutant_discipline_loses_emitted_path :
+    DenotesFromRoot homonymTable homonymUse ∧
+    PathsResolveBack homonymTable [homonymUse] ∧
+    findStop homonymTable homonymUse.scope ⟨false, ["Util"], "twice"⟩ = .ok none ∧
+    ¬ NoInnerHomonym homonymTable homonymUse := by
+  refine ⟨⟨⟨false, ["Util"], "twice"⟩, by decide, by decide⟩, ?_, by decide, ?_⟩
+  · intro u hu
+    simp only [List.mem_singleton] at hu
+    subst hu
+    exact ⟨⟨false, ["Util"], "twice"⟩, by decide, by decide⟩
+  · rintro ⟨p, hp, hno⟩
+    have hp' : p = ⟨false, ["Util"], "twice"⟩ := by
+      have : emitPath homonymUse.full = some ⟨false, ["Util"], "twice"⟩ := by decide
+      rw [this] at hp; cases hp; rfl
+    subst hp'
+    -- scope 3 is `App`, the parent of the body of `f`; it declares `Util`
+    have hch : OnChain homonymTable 6 3 := .step (sc := homonymTable[6]) (by decide) (by decide) (.refl 3)
+    have := hno 3 homonymTable[3] hch (by decide) (by decide)
+    exact absurd (undeclared_iff.mpr this) (by decide)
+
+/-- `namespace Util { int twice(int); } namespace App { namespace Util { int twice(int); } int f(int) { ::Util::twice(K); } }` -/
+def captureInstrs : List Instr :=
+  [.ns "Util", .fn "twice" "-", .end, .end,
+   .ns "App", .ns "Util", .fn "twice" "-", .end, .end, .fn "f" "-", .use .f ⟨true, ["Util"], "twice"⟩, .end, .end]
+
+/-- **emitted_path_captured_witness** (negation witness on the current code — the known findings
+    `names:relative-path-captured/..`, C15 `relative-path-resolves-elsewhere`): when a scope between the use and the root
+    resolves the whole emitted path, the code's discipline returns that closer entity: `::Util::twice` (entity 0), emitted
+    as `Util::twice` inside `App`, is looked up to `App::Util::twice` (entity 2), so `PathsResolveBack` fails.  Replayed on
+    the real compiler (corpus): the second generation prints `App::Util::twice`. -/
+theorem emitted_path_captured_witness :
+    (run captureInstrs).uses.map (fun u => (u.scope, u.res)) = [(6, .ok (some (.fns [0])))] ∧
+    find (run captureInstrs).T 6 ⟨false, ["Util"], "twice"⟩ = .ok (some (.fns [2])) ∧
+    ¬ PathsResolveBack (run captureInstrs).T [⟨6, ["Util", "twice"], .fns [0]⟩] := by
+  refine ⟨by decide, by decide, ?_⟩
+  intro h
+  obtain ⟨p, hp, hf⟩ := h ⟨6, ["Util", "twice"], .fns [0]⟩ (by simp)
+  have : emitPath ["Util", "twice"] = some ⟨false, ["Util"], "twice"⟩ := by decide
+  rw [this] at hp; cases hp
+  revert hf
+  decide
+
+/-- `namespace Util { int twice(int); } namespace App { namespace Detail { int halve(int); } int f(int) { ::Util::twice(K); } }` -/
+def plainInstrs : List Instr :=
+  [.ns "Util", .fn "twice" "-", .end, .end,
+   .ns "App", .ns "Detail", .fn "halve" "-", .end, .end, .fn "f" "-", .use .f ⟨true, ["Util"], "twice"⟩, .end, .end]
+
+/-- non-vacuity of `emitted_path_resolves_to_same_entity`: the table of a program with nested namespaces of other names
+    satisfies every hypothesis (well-formedness comes from `machine_tables_wf`), and both disciplines find the entity -/
+example :
+    ∃ p, emitPath ["Util", "twice"] = some p ∧ find (run plainInstrs).T 6 p = .ok (some (.fns [0])) ∧
+      findStop (run plainInstrs).T 6 p = .ok (some (.fns [0])) := by
+  have wf := (machine_tables_wf plainInstrs).1
+  exact emitted_path_resolves_to_same_entity wf ⟨6, ["Util", "twice"], .fns [0]⟩ (by decide)
+    ⟨⟨false, ["Util"], "twice"⟩, by decide, by decide⟩
+    ⟨⟨false, ["Util"], "twice"⟩, by decide,
+      undeclared_of_noInnerHomonymB wf (u := 6) (h := "Util") (by decide)⟩
+
+/-! ### from `PathsResolveBack` to the name hypothesis of `fixpoint_expr` -/
+
+/-- the lookup of the exported program seen from one use position, as the `Names` the front-end model `readBack` asks:
+    `dec` splits a printed identifier into its path, `pos` / `fpos` give the position (in the C03 environment) of the
+    variable / function an entity of the table is -/
+def namesAt (T' : Table) (u : Nat) (dec : String → Option Path) (pos fpos : Model.FixpointNames.Res → Option Nat) : Names where
+  res s := (dec s).bind fun p => match find T' u p with
+    | .ok (some r) => pos r
+    | _ => none
+  fres s := (dec s).bind fun p => match find T' u p with
+    | .ok (some r) => fpos r
+    | _ => none
+
+/-- **namesAgree_of_pathsResolveBack**: when every name the exporter printed for a variable / function of the expression
+    is the emitted path of a use (at position `u`) for which `PathsResolveBack` holds, the lookup of the exported program
+    agrees with the exporter's names — the hypothesis `NamesAgree` of `bridge_square` / `fixpoint_expr`. -/
+theorem namesAgree_of_pathsResolveBack {T' : Table} {u : Nat} {dec : String → Option Path} {pos fpos : Model.FixpointNames.Res → Option Nat}
+    {cx : Ctx} {ix : Idx} {Γ' : Env} (uses : List EmittedUse) (hP : PathsResolveBack T' uses)
+    (hloc : ∀ id j, ix.var (.loc id) = some j →
+      ∃ e ∈ uses, e.scope = u ∧ dec (cx.locName id) = emitPath e.full ∧ pos e.ent = some j)
+    (hglob : ∀ id j, ix.var (.glob id) = some j →
+      ∃ e ∈ uses, e.scope = u ∧ dec (cx.globName id) = emitPath e.full ∧ pos e.ent = some j)
+    (hfunc : ∀ f j, ix.func f = some j →
+      (∃ e ∈ uses, e.scope = u ∧ dec (cx.funcName f) = emitPath e.full ∧ fpos e.ent = some j) ∧
+      ∃ sg, Γ'.funcs[j]? = some sg ∧ sg.name = j) :
+    NamesAgree cx ix (namesAt T' u dec pos fpos) Γ' := by
+  have key : ∀ (s : String) (e : EmittedUse), e ∈ uses → e.scope = u → dec s = emitPath e.full →
+      ∀ g : Model.FixpointNames.Res → Option Nat, ((dec s).bind fun p => match find T' u p with
+        | .ok (some r) => g r
+        | _ => none) = g e.ent := by
+    intro s e he hu hd g
+    obtain ⟨p, hp, hf⟩ := hP e he
+    rw [hd, hp, ← hu]
+    simp [hf]
+  refine ⟨?_, ?_, ?_⟩
+  · intro id j h
+    obtain ⟨e, he, hu, hd, hpos⟩ := hloc id j h
+    simp only [namesAt]
+    rw [key _ e he hu hd pos, hpos]
+  · intro id j h
+    obtain ⟨e, he, hu, hd, hpos⟩ := hglob id j h
+    simp only [namesAt]
+    rw [key _ e he hu hd pos, hpos]
+  · intro f j h
+    obtain ⟨⟨e, he, hu, hd, hpos⟩, hsg⟩ := hfunc f j h
+    refine ⟨?_, hsg⟩
+    simp only [namesAt]
+    rw [key _ e he hu hd fpos, hpos]
+
+/-- **fixpoint_expr_paths** — `fixpoint_expr` with the name hypothesis stated on the scope table of the exported program:
+    if the emitted paths resolve back (`PathsResolveBack`, e.g. by `pathsResolveBack_of_no_closer_match`), the exported
+    tree read back through that table elaborates to the first-generation skeleton again, and the second generation is the
+    first. -/
+theorem fixpoint_expr_paths {Γ Γ' : Env} (hR : Renamed Γ Γ') {T' : Table} {u : Nat} {dec : String → Option Path}
+    {pos fpos : Model.FixpointNames.Res → Option Nat} {cx : Ctx} {ix : Idx} (uses : List EmittedUse) (hP : PathsResolveBack T' uses)
+    (hloc : ∀ id j, ix.var (.loc id) = some j →
+      ∃ e ∈ uses, e.scope = u ∧ dec (cx.locName id) = emitPath e.full ∧ pos e.ent = some j)
+    (hglob : ∀ id j, ix.var (.glob id) = some j →
+      ∃ e ∈ uses, e.scope = u ∧ dec (cx.globName id) = emitPath e.full ∧ pos e.ent = some j)
+    (hfunc : ∀ f j, ix.func f = some j →
+      (∃ e ∈ uses, e.scope = u ∧ dec (cx.funcName f) = emitPath e.full ∧ fpos e.ent = some j) ∧
+      ∃ sg, Γ'.funcs[j]? = some sg ∧ sg.name = j)
+    (hI : IdxInj ix) (dbg dbg' : Bool) {s : SExpr} {i : IExpr} {τ : ETy}
+    (hs : SrcOk s) (hel : elabE dbg Γ s = .ok (i, τ))
+    {e : Ir.Expr} (he : erase ix e = some i) {a : HlslAst.Expr} (hg : genExpr cx e = .ok a) :
+    (∃ s', readBack (namesAt T' u dec pos fpos) a = some s' ∧ elabE dbg' Γ' s' = .ok (i, τ)) ∧
+    (∀ e2, erase ix e2 = some i → leaves e2 = leaves e → e2 = e ∧ genExpr cx e2 = .ok a) :=
+  fixpoint_expr hR (namesAgree_of_pathsResolveBack uses hP hloc hglob hfunc) hI dbg dbg' hs hel he hg
+
+end Names
 
 end RsslVerif.Thm.C04
